@@ -50,7 +50,7 @@ def catalogue(K, thorough=False):
             S.GRP_BLOCKED(K), S.GRPBATCH(K), S.EMPTYBATCH(K), S.TWOSRC(K), S.GATE_NONE(K), S.DELAY01_LONG(0),
             S.MAINT2_SCRIPT(K), S.GRPIN(K), S.RES3(K), S.BLOCKED_OUT_SCRIPT(K), S.BUFGATE(K),
             S.BATCH_DIRECT(K, pattern=(2, 2, None), size=3, cap=3, sink_cycle=2),
-            S.BATCH(K, size=2, cap=6, sink_cycle=2)]
+            S.BATCH(K, size=2, cap=6, sink_cycle=2), S.BLOCK_SCRIPT(K), S.BUDGET(K, budget=0)]
     return rows
 
 
